@@ -32,6 +32,26 @@ void h_bitnot(void) {
     bigint want = pu && pw < 64 ? (bigint)((~(biguint)x) & ((1ULL << pw) - 1)) : ~x;
     __CPROVER_assert(r == want, "~x is the complement in the integer-promoted type of the operand");
 }
+/* impossible values with a bound: "x <= v never" (bound 0, Upper), "x >= v never" (bound 1, Lower), "x != v" (bound 2, Point) */
+int g_in_bound; bigint g_in_v;
+static _Bool imp_fact(int bound, bigint v, bigint x) { return bound == 2 ? x != v : bound == 0 ? x > v : x < v; }
+void h_bitnot_bounds(void) {
+    struct Platform pl; pl.char_bit = 8; pl.short_bit = 16; pl.int_bit = 32; pl.long_bit = nondet_uchar(); pl.long_long_bit = 64; __CPROVER_assume(pl.long_bit == 32 || pl.long_bit == 64);
+    enum VType t = (enum VType)nondet_int(); enum Sign s = (enum Sign)nondet_int();
+    __CPROVER_assume(t >= VType_CHAR && t <= VType_LONG && t != VType_WCHAR_T && (s == Sign_SIGNED || s == Sign_UNSIGNED));
+    int w = t == VType_CHAR ? 8 : t == VType_SHORT ? 16 : t == VType_INT ? 32 : pl.long_bit;
+    __CPROVER_assume(w < 64);          /* 64-bit operands: ordering of unsigned patterns above LLONG_MAX is not decided */
+    bigint x = nondet_bigint(), v = nondet_bigint(); int bound = nondet_int(); __CPROVER_assume(bound >= 0 && bound <= 2);
+    if (s == Sign_UNSIGNED) __CPROVER_assume(x >= 0 && x <= (bigint)((1ULL << w) - 1) && v >= 0 && v <= (bigint)((1ULL << w) - 1));
+    else __CPROVER_assume(x >= -(bigint)(1ULL << (w - 1)) && x <= (bigint)((1ULL << (w - 1)) - 1) && v >= -(bigint)(1ULL << (w - 1)) && v <= (bigint)((1ULL << (w - 1)) - 1));
+    __CPROVER_assume(imp_fact(bound, v, x));
+    g_in_x = x; g_in_v = v; g_in_bound = bound; g_in_type = t; g_in_sign = s; g_in_long_bit = pl.long_bit;
+    int b2 = bound;
+    bigint nv = bitnot_block2(v, &b2, 1, t, s, 0, &pl);
+    int pw = w < 32 ? 32 : w; _Bool pu = w < 32 ? 0 : (s == Sign_UNSIGNED);
+    bigint y = pu ? (bigint)((~(biguint)x) & ((1ULL << pw) - 1)) : ~x;
+    __CPROVER_assert(imp_fact(b2, nv, y), "an impossible value of x (with its bound) handed on through ~ is a true fact about ~x in the promoted type");
+}
 void h_cover(void) {
     struct Platform pl; pl.int_bit = 32; pl.long_bit = 64;
     __CPROVER_assert(!(bitnot_block(0, 1, VType_INT, Sign_UNSIGNED, 0, &pl) == 4294967295LL), "COVER: ~0U is 4294967295");
@@ -64,6 +84,7 @@ def build(ctx):
     kb.add_located("ValueFlow::setTokenValue [unary ~ block]", reg, "region")
     t, n = located_rules(reg, _common.VT_RULES + [
         (r'\bv\.intvalue\b', 'v_intvalue', 3),
+        (r'\bv\.invertBound\(\)\s*;', 'if (*v_bound == 1) *v_bound = 0; else if (*v_bound == 0) *v_bound = 1;   /* Value::invertBound (extracted and checked in K44): 0 Upper, 1 Lower, 2 Point */', 0, 1),
         (r'\btok->valueType\(\)->(sign|type|pointer)\b', r'vt_\1', 3),
         (r'\btok->valueType\(\)(?!->)', 'has_vt', 1, 1),
         (r'\bsettings\.platform\.(\w+)', r'platform->\1', 2),
@@ -73,10 +94,14 @@ def build(ctx):
         raise extract.ExtractError("K37: part of the ~ block was not lowered: %r" % t.strip()[:300])
     kb.rules_fired = n
     text = (_common.BASE + enums + pstruct + "#define BIGINT_BITS %s\n" % mb.group(1) +
-            "bigint bitnot_block(bigint v_intvalue, _Bool has_vt, enum VType vt_type, enum Sign vt_sign, int vt_pointer, const struct Platform *platform)\n{\n%s\n    return v_intvalue;\n}\n" % extract.strip_comments(t))
+            "static int g_bound_dummy;\n"
+            "bigint bitnot_block2(bigint v_intvalue, int *v_bound, _Bool has_vt, enum VType vt_type, enum Sign vt_sign, int vt_pointer, const struct Platform *platform)\n{\n%s\n    return v_intvalue;\n}\n"
+            "bigint bitnot_block(bigint v_intvalue, _Bool has_vt, enum VType vt_type, enum Sign vt_sign, int vt_pointer, const struct Platform *platform) { int b = 2; return bitnot_block2(v_intvalue, &b, has_vt, vt_type, vt_sign, vt_pointer, platform); }\n"
+            % extract.strip_comments(t))
     extract.residue_scan(text, ID)
     kb.ctext = text + HARNESS
     kb.job("bitnot", "h_bitnot", note="loop-free region: complete in the operand value, its type and sign, long 32/64")
+    kb.job("bounds", "h_bitnot_bounds", note="loop-free region: impossible values with upper / lower / point bound, operand types up to 32 bits (and 64-bit long excluded), every operand value")
     kb.job("cover", "h_cover", kind="cover")
     kb.assumptions += ["region interface: (value, operand type/sign/pointer, platform); int is 32 bits and wider than short (built-in platforms)",
                        "unsigned values are carried modulo 2^width in MathLib::bigint; unsigned long long results are compared as 64-bit patterns"]
